@@ -14,7 +14,7 @@ def run(R, tier, seed):
                       "the --dry-run clause (no file, mtime or recorded state changes; printed == performed) is a file-system observation and is NOT covered",
                       "strings are sequences of one-byte chars over the alphabet " + repr(planlib.ALPHABET)]
     from . import planjobs
-    steps = ["validate-glob", "glob_match", "build_plan", "is_excluded"]
+    steps = ["validate-glob", "glob_match", "build_plan", "is_excluded", "is_excluded-2"]
     if tier != "quick":
-        steps += ["is_excluded-2", "is_excluded-long"]
+        steps += ["is_excluded-long"]
     planjobs.run(R, "C15", tier, seed, steps)
